@@ -567,6 +567,7 @@ func runC12(c *Ctx) {
 
 	r2 := c.Rule("R2", "string values are written with an escape alphabet the lexer decodes", 1)
 	stringWriterRule(c, r2)
+	lexerAcceptsHighCharacters(c, r2)
 
 	r3 := c.Rule("R3", "print decisions test presence, options or built-in flags only (query printers)", 10)
 	guardDiscipline(c, r3, "query")
@@ -709,6 +710,7 @@ func runC13(c *Ctx) {
 
 	r2 := c.Rule("R2", "default values and directive arguments use the escape-safe string writer", 1)
 	stringWriterRule(c, r2)
+	lexerAcceptsHighCharacters(c, r2)
 
 	r3 := c.Rule("R3", "text between block-string delimiters has the delimiter escaped", 1)
 	blockDelimiterRule(c, r3)
